@@ -125,7 +125,7 @@ def correspond(ctx, name, cases, ops, coq_case, coq_header, chk, judge=None, con
                     except Exception as exc:  # malformed output shape
                         obs_list = [("malformed", repr(exc))]
                 key = json.dumps(obs_list, default=str, sort_keys=True)
-                seen.setdefault(key, (obs_list, []))[1].append((cfg, op, raw))
+                seen.setdefault(key, (obs_list, []))[1].append((cfg, op, raw, _a(c)))
         for key, (obs_list, who) in seen.items():
             try:
                 term = coq_case(c, obs_list)
@@ -167,7 +167,7 @@ def correspond(ctx, name, cases, ops, coq_case, coq_header, chk, judge=None, con
     for ti in bad_terms:
         ci, who, obs_list = owners[ti]
         c = cases[ci]
-        for (cfg, op, raw) in who:
+        for (cfg, op, raw, args_) in who:
             stats["disagreements"] += 1
             sig = known(c, op, cfg, raw) if known else None
             if sig:
@@ -176,6 +176,7 @@ def correspond(ctx, name, cases, ops, coq_case, coq_header, chk, judge=None, con
             verdict = safe_judge(judge, c, op, cfg, raw)
             ctx.violations.append({"kind": "model-implementation-disagreement", "correspondence": name,
                                    "config": cfg, "op": op, "case": c, "implementation_returned": raw,
+                                   "job": {"op": op, "args": args_},
                                    "property_verdict_on_this_input": verdict,
                                    "no_input": verdict is None})
     if nontrivial:
@@ -218,6 +219,7 @@ def sweep(ctx, name, cases, ops, judge, configs=("pure", "speedup"), known=None)
         for ci, c in enumerate(cases):
             for oi, (op, _a) in enumerate(ops):
                 r = raw[ci * len(ops) + oi]
+                args_ = _a(c)
                 verdict = safe_judge(judge, c, op, cfg, r)
                 if verdict:
                     sig = known(c, op, cfg, r) if known else None
@@ -229,7 +231,7 @@ def sweep(ctx, name, cases, ops, judge, configs=("pure", "speedup"), known=None)
                     stats["failures"] += 1
                     if stats["failures"] <= 5:
                         ctx.violations.append({"kind": "property-fails-on-implementation", "sweep": name, "config": cfg,
-                                               "op": op, "case": c, "implementation_returned": r, "verdict": verdict})
+                                               "op": op, "case": c, "implementation_returned": r, "job": {"op": op, "args": args_}, "verdict": verdict})
     stats["wall_s"] = round(time.time() - t0, 2)
     ctx.corr["sweep:" + name] = stats
 
